@@ -1,6 +1,6 @@
 // Bounded oracle for C02: a well-formed document yields a tree that mirrors it, whatever the layout.
 // Documents are generated from a small description (independent reference: the description renders BOTH the token list and
-// the expected shape of the tree); every document is laid out with 6 separators between all tokens (spaces, tabs, LF, CRLF,
+// the expected shape of the tree); every document is laid out with 8 separators between all tokens (spaces, tabs, LF, CRLF,
 // block comments with multi-byte text, line comments). The shape ignores positions, documentation and what validation adds
 // (resolved kinds, propagated oneway), exactly as the statement does.
 use aidl_parser::ast::*;
@@ -146,7 +146,7 @@ fn parcelable_docs() -> Vec<Doc> {
 
 #[test]
 fn c02_all() {
-    let seps = [" ", "  \t", "\n", "\r\n", " /* \u{e9}\u{4e2d} ; { */ ", " // c ; }\n"];
+    let seps = [" ", "  \t", "\n", "\r\n", " /* \u{e9}\u{4e2d} ; { */ ", " // c ; }\n", "/** banner **/", "/***/ /**/\t"];
     let mut out: Vec<String> = Vec::new();
     let mut evals = 0usize;
     let mut docs = interface_docs();
@@ -176,6 +176,6 @@ fn c02_all() {
     }
     out.sort(); out.dedup();
     for w in out.iter().take(12) { println!("{}", w.chars().take(900).collect::<String>()); }
-    println!("ORACLE-STATS evaluations={} distinct={} rule=one document in one layout each: {} generated documents (18 type shapes in return / argument / field / constant position, 8 value forms, annotations with parameters, near-keyword names, qualified names written with spaces) x 6 separators between all tokens; the tree's shape (no positions, no documentation, no resolved kinds) must equal the shape rendered from the same description", evals, evals, ndocs);
+    println!("ORACLE-STATS evaluations={} distinct={} rule=one document in one layout each: {} generated documents (18 type shapes in return / argument / field / constant position, 8 value forms, annotations with parameters, near-keyword names, qualified names written with spaces) x 8 separators between all tokens; the tree's shape (no positions, no documentation, no resolved kinds) must equal the shape rendered from the same description", evals, evals, ndocs);
     assert!(out.is_empty(), "witness found");
 }
